@@ -37,6 +37,9 @@ def gen_cases(tier, seed):
     nC = 16 if q else 64
     for i in range(nC):
         cases.append({"part": "C", "seed": seed * 104729 + i, "n": 6 if q else 16})
+    nD = 8 if q else 32
+    for i in range(nD):
+        cases.append({"part": "D", "seed": seed * 611953 + i, "n": 40 if q else 200})
     return cases
 
 
@@ -483,15 +486,50 @@ def run_C(case):
     return {"violations": list(viol.values()), "counters": counters, "keys": keys, "sample": sample}
 
 
+def run_D(case):
+    """the 256-entry exponential table of the 8-bit softmax lowering (softmax.SoftMax.generate_exp_table) against the reference kernel's own arithmetic:
+    entry x is exp_on_negative_values of the rescaled difference x - 255 when that difference is within the input radius (diff_min), 0 otherwise"""
+    from ethosu.vela import softmax as sm
+
+    rng = np.random.default_rng(np.random.SeedSequence([1900, case["seed"]]))
+    viol = {}
+    counters = {"softmax_tables_checked": 0, "softmax_table_entries": 0, "softmax_tables_with_radius_inside": 0}
+    keys = []
+    for t in range(case["n"]):
+        beta = float(np.float32(rng.choice([1.0, 1.0, 0.5, 2.0, 0.25, float(rng.uniform(0.1, 4.0))])))
+        k = rng.integers(0, 4)
+        scale = np.float32([rng.uniform(0.0005, 0.05), rng.uniform(0.05, 0.6), 1.0 / 16 / beta, 2.0 ** -int(rng.integers(2, 9))][int(k)])
+        if rng.integers(0, 2):
+            scale = np.float32(scale * np.float32(1 + rng.choice([0.0, 1e-7, -1e-7, 1e-3])))
+        try:
+            got = [int(v) for v in sm.SoftMax.generate_exp_table(None, beta, scale)]
+        except Exception as e:
+            mech = "softmax-exp-table:exception:" + type(e).__name__
+            viol.setdefault(mech, {"mech": mech, "msg": str(e)[:200], "witness": {"beta": beta, "scale": float(scale)}})
+            continue
+        m, ls, dmin = R.softmax_params(beta, float(scale))
+        want = [R.exp_on_negative_values(R.srdhm32((x - 255) * (1 << ls), m), 5) if x - 255 >= dmin else 0 for x in range(256)]
+        counters["softmax_tables_checked"] += 1
+        counters["softmax_table_entries"] += 256
+        counters["softmax_tables_with_radius_inside"] += int(dmin >= -255)
+        keys.append("D:%d:%d" % (ls, int(dmin >= -255)))
+        if got != want:
+            bad = [i for i in range(256) if got[i] != want[i]]
+            mech = "softmax-exp-table:entry-differs-from-reference" + (":at-input-radius" if bad == [255 + dmin] else "")
+            viol.setdefault(mech, {"mech": mech, "msg": "beta %g, input scale %r (diff_min %d): %d entries differ, e.g. entry %d (difference %d): table %d, reference %d" % (
+                beta, float(scale), dmin, len(bad), bad[0], bad[0] - 255, got[bad[0]], want[bad[0]]), "witness": {"beta": beta, "scale": float(scale), "bad": bad[:8]}})
+    return {"violations": list(viol.values()), "counters": counters, "keys": sorted(set(keys)), "sample": {"part": "D", "tables": counters["softmax_tables_checked"]}}
+
+
 def run_case(case):
-    return {"A": run_A, "B": run_B, "C": run_C}[case["part"]](case)
+    return {"A": run_A, "B": run_B, "C": run_C, "D": run_D}[case["part"]](case)
 
 
 def summarise(agg, tier):
     q = tier == "quick"
     return {
         "thresholds": {"helper_evaluations": 100000 if q else 3000000, "tables_checked": 250 if q else 8000, "hook_evaluations": 250 if q else 8000,
-                       "folded_constants_checked": 10000 if q else 200000},
+                       "folded_constants_checked": 10000 if q else 200000, "softmax_tables_checked": 250 if q else 5000, "softmax_tables_with_radius_inside": 60 if q else 1200},
         "rule": "A: (helper, operand tuple, operand type) evaluations of every fp_math helper, boundary-biased + exhaustive int8 pairs / int16 x shifts, "
                 "types python int and numpy int8/16/32/64; B: 8-bit tables captured from real compilations of single-activation networks with random "
                 "quantisation; C: QUANTIZE constant folding observed at the rewrite. distinct = helpers (A) + distinct (kind,dtype,scales,zps,alpha) tables (B) + folds (C)",
